@@ -236,11 +236,21 @@ def run(ctx):
         b = [0] + list(cuts) + [n]
         pieces = [t[i:j] for i, j in zip(b[:-1], b[1:])]
         # empty pieces in between
-        for hist in ("stream", "gzip", "w+a", "empty-pieces"):
+        for hist in ("stream", "stream-with-empty-chunks", "gzip", "w+a", "empty-pieces"):
             p = ctx.path(hist.replace("+", "") + suffix + (".gz" if hist == "gzip" else ""))
             try:
                 if hist == "stream":
                     write(p, pieces, buffer, as_stream=True, dataclass=type(t))
+                elif hist == "stream-with-empty-chunks":
+                    if n == 0:
+                        continue
+                    # a stream in which empty chunks sit between (and before) the non-empty ones, e.g. a per-chunk filter that matches nothing
+                    with_empty = [pieces[0]]
+                    for piece in pieces[1:]:
+                        with_empty += [t[:0], piece]
+                    if r.random() < 0.3 and len(pieces) > 1:
+                        with_empty = with_empty + [t[:0]]
+                    write(p, with_empty, buffer, as_stream=True, dataclass=type(t))
                 elif hist == "gzip":
                     write(p, pieces, buffer)
                 elif hist == "w+a":
